@@ -189,6 +189,55 @@ fn one_input(run: &Run, len: usize, pat: usize, full_orders_up_to: usize, tot: &
         tot.executions.fetch_add(execs, Ordering::Relaxed);
         tot.tree_nodes.fetch_add(nodes, Ordering::Relaxed);
     }
+    // the environment's other answer: a chunk nobody returns. For small inputs each chunk in turn is unavailable (every
+    // completion order of the other fetches): what comes back must be an error — or the original bytes —, never other
+    // bytes with an Ok ("returns the original bytes" has no exception for a holder that is away).
+    // (quick tier: the lengths 3..=64 and every length within one byte of a multiple of 256; thorough: every length)
+    let fault_dimension = !run.quick() || len <= 64 || (len < 100_000 && matches!(len % 256, 0 | 1 | 255));
+    if first_level <= full_orders_up_to && fault_dimension {
+        let mut keys: Vec<RecordKey> = store.keys().cloned().collect();
+        keys.sort_by(|a, b| a.as_ref().cmp(b.as_ref()));
+        for missing in &keys {
+            for public in [false, true] {
+                if !public && *missing == key_of(&dm) {
+                    continue; // the caller holds the data map itself
+                }
+                let (execs, _, nodes) = explore_seq(usize::MAX / 2, |ch| {
+                    let mut rig = ClientRig::new();
+                    let client = rig.client.clone();
+                    let (dmc, addr) = (dm_chunk.clone(), dm_addr);
+                    let res = rig.drive(
+                        async move {
+                            if public {
+                                client.data_get_public(addr).await.map_err(|e| format!("{e:?}"))
+                            } else {
+                                client.data_get(dmc).await.map_err(|e| format!("{e:?}"))
+                            }
+                        },
+                        |pending| {
+                            let i = if pending.len() == 1 { 0 } else { ch.choose(pending.len(), "answer") };
+                            let k = &pending[i].key;
+                            let reply = if k == missing { Err(GetRecordError::RecordNotFound) } else { store.get(k).cloned().ok_or(GetRecordError::RecordNotFound) };
+                            (i, reply)
+                        },
+                    );
+                    run.outcome(format!("missing-chunk:{}", matches!(res, Some(Ok(_)))).as_bytes());
+                    match res {
+                        Some(Ok(bytes)) if bytes != data => run.violation(
+                            "round-trip",
+                            "other-bytes-when-a-chunk-is-unavailable",
+                            format!("one chunk was not returned by anybody, yet the fetch gave Ok with {} bytes that are not the {}-byte input ({desc}, public={public}, answer order {:?})", bytes.len(), data.len(), ch.choices()),
+                            json!({"case": desc, "public": public, "choices": ch.choices(), "missing": hex::encode(missing.as_ref())}),
+                        ),
+                        None => run.violation("round-trip", "blocked", format!("the fetch never completed with a chunk unavailable ({desc}, public={public})"), json!({"case": desc, "public": public, "choices": ch.choices()})),
+                        _ => {}
+                    }
+                });
+                tot.executions.fetch_add(execs, Ordering::Relaxed);
+                tot.tree_nodes.fetch_add(nodes, Ordering::Relaxed);
+            }
+        }
+    }
 }
 
 fn sweep(run: &Run, lengths: Vec<usize>, full_orders_up_to: usize) -> Totals {
